@@ -366,6 +366,40 @@ def monitor_sub(case, obs, k, w):
                         out.append((dict({"class": "missing", "window": bool(w), "mid": bool(mid), "copy": bool(ft["copy"]), "trunc": bool(ft["trunc"])}, **tag),
                                     "token %d of step %d (seq %d pos %d) does not see the stored entries %s; expected %s, exposed %s"
                                     % (i, si, q, p, missing, exp, seen), {"step": si, "token": i}))
+            # every mask that Get returns after a SetCausal call of this pass: tokens that are not exempt see exactly their
+            # causal history, exempt tokens additionally the later entries of their own sequence (inside the window)
+            if not st.get("err") and st.get("sc") and "length" in st["fw"][k]:
+                f = st["fw"][k]
+                for cj, (ex, per) in enumerate(zip(pr["sc"], st["sc"])):
+                    r = per[k]
+                    if r.get("layerdiff") or not r.get("padok", True) or r.get("length") != f["length"] or r.get("rows") != f["rows"]:
+                        out.append((dict({"class": "mask-shape", "after": "setcausal"}, **tag), "mask after SetCausal call %d of step %d is inconsistent: %s"
+                                    % (cj, si, {x: r.get(x) for x in ("length", "rows", "padok", "layerdiff")}), {"step": si}))
+                        continue
+                    for i, (q, p, t) in enumerate(batch):
+                        if q in ideal.dirty:
+                            continue
+                        seen = []
+                        for j in r["vis"][i]:
+                            v = f["view"][j - f["min"]] if 0 <= j - f["min"] < len(f["view"]) else None
+                            seen.append((v[1], v[0]) if isinstance(v, list) else ("?", j))
+                        seen.sort(key=str)
+                        if i in ex:
+                            exp = sorted((x[0], x[1]) for x in ideal.entries(q) if w is None or x[0] >= p - w)
+                        else:
+                            exp = ideal.expected(q, p)
+                        extra, missing = multiset_diff(seen, sorted(exp, key=str)), multiset_diff(sorted(exp, key=str), seen)
+                        if extra:
+                            later = all(isinstance(e[0], int) and e[0] > p for e in extra)
+                            out.append((dict({"class": "setcausal-not-causal" if later and i not in ex else "setcausal-extra", "window": bool(w)}, **tag),
+                                        "after SetCausal(Except=%s) (call %d of step %d) token %d (seq %d pos %d, %s) attends to %s; expected %s, exposed %s"
+                                        % (ex, cj, si, i, q, p, "exempt" if i in ex else "not exempt", extra, exp, seen), {"step": si, "token": i}))
+                        elif missing and (w is None or ideal.st(q) == "ok"):
+                            ft = ideal._f(q)
+                            mid = ft["mid"] is not None and all(m[0] < ft["mid"] for m in missing)
+                            out.append((dict({"class": "missing", "after": "setcausal", "window": bool(w), "mid": bool(mid), "copy": bool(ft["copy"]), "trunc": bool(ft["trunc"])}, **tag),
+                                        "after SetCausal(Except=%s) (call %d of step %d) token %d (seq %d pos %d) does not see %s"
+                                        % (ex, cj, si, i, q, p, missing), {"step": si, "token": i}))
         elif pr["op"] == "reserve":
             if st.get("err"):
                 out.append(({"class": "reserve-error"}, "StartForward(reserve) failed with %s" % st["err"], {"step": si}))
@@ -501,6 +535,26 @@ class Sim:
         self.gc()
 
 
+def gen_sc(rng, n):
+    """the SetCausal calls of a pass: gemma3 calls SetCausal(ctx, Except) before every layer - an empty list for a text batch,
+    the indices of the image tokens otherwise; also a reset to the empty list inside the pass, repeated and changed lists"""
+    def ex():
+        k = rng.randint(1, n)
+        a = rng.randint(0, n - k)
+        return list(range(a, a + k)) if rng.random() < 0.7 else sorted(rng.sample(range(n), k))
+    r = rng.random()
+    if r < 0.35:
+        return [[]]
+    if r < 0.55:
+        return [ex()]
+    if r < 0.8:
+        return [ex(), []]
+    if r < 0.9:
+        e = ex()
+        return [e, e, [], ex()]
+    return [ex(), ex(), []]
+
+
 def gen_fwd(rng, sim, seqs, n, style="append"):
     batch, nxt = [], {}
     q0 = rng.choice(seqs)
@@ -518,7 +572,10 @@ def gen_fwd(rng, sim, seqs, n, style="append"):
             p = base
         nxt[q] = p + 1
         batch.append((q, p, sim.nexttok()))
-    return {"op": "fwd", "seqs": [b[0] for b in batch], "pos": [b[1] for b in batch], "toks": [b[2] for b in batch]}, batch
+    o = {"op": "fwd", "seqs": [b[0] for b in batch], "pos": [b[1] for b in batch], "toks": [b[2] for b in batch]}
+    if sim.cfg.get("kind") in ("causal", "swa", "wrapper") and rng.random() < 0.3:
+        o["sc"] = gen_sc(rng, n)
+    return o, batch
 
 
 def gen_history(rng, cfg, klass, nops):
@@ -801,6 +858,8 @@ def zn(x):
 def r_op(pr):
     if pr["op"] == "reserve":
         return "ZV [" + ";".join("(%d,%s,%d)" % (q, zn(p), t) for q, p, t in zip(pr["seqs"], pr["pos"], pr["toks"])) + "]"
+    if pr["op"] == "fwd" and pr.get("sc") is not None and not (pr.get("fault") or {}).get("mask"):
+        return "ZF [" + ";".join("(%d,%s,%d)" % (q, zn(p), t) for q, p, t in zip(pr["seqs"], pr["pos"], pr["toks"])) + "]"
     if pr["op"] == "fwd" and (pr.get("fault") or {}).get("mask"):
         return "ZFf [" + ";".join("(%d,%s,%d)" % (q, zn(p), t) for q, p, t in zip(pr["seqs"], pr["pos"], pr["toks"])) + "] %d" % (pr["fault"]["mask"] - 1)
     if pr["op"] == "rm" and (pr.get("fault") or {}).get("shift"):
@@ -892,6 +951,29 @@ def r_ewop(pr):
     return "ZWQ %d %s" % (pr["seq"], zn(pr["pos"]))
 
 
+def r_fwd_sc(st):
+    pr = st["prim"]
+    batch = "[" + ";".join("(%d,%s,%d)" % (q, zn(p), t) for q, p, t in zip(pr["seqs"], pr["pos"], pr["toks"])) + "]"
+    calls = "[" + ";".join(zl(ex) for ex in pr["sc"]) + "]"
+    obs = []
+    for k in range(2):
+        rows = []
+        for per in st.get("sc") or []:
+            if k < len(per) and "vis" in per[k]:
+                rows.append("[" + ";".join(zl(v) for v in per[k]["vis"]) + "]")
+        obs.append("[" + ";".join(rows) + "]")
+    if not st.get("sc"):
+        calls = "[]"        # the pass failed before any SetCausal call
+    return "ZFs %s %s %s %s" % (batch, calls, obs[0], obs[1])
+
+
+def r_opx(st):
+    pr = st["prim"]
+    if pr["op"] == "fwd" and pr.get("sc") is not None and not (pr.get("fault") or {}).get("mask"):
+        return r_fwd_sc(st)
+    return r_op(pr)
+
+
 def r_step(case, st):
     kind = case["cfg"].get("kind")
     if kind == "enc":
@@ -899,8 +981,8 @@ def r_step(case, st):
     if kind == "encwrap":
         return "(%s, (%s, %s))" % (r_ewop(st["prim"]), r_enc(st), r_obs(st, 0))
     if kind == "wrapper":
-        return "(%s, (%s, %s))" % (r_op(st["prim"]), r_obs(st, 0), r_obs(st, 1))
-    return "(%s, %s)" % (r_op(st["prim"]), r_obs(st))
+        return "(%s, (%s, %s))" % (r_opx(st), r_obs(st, 0), r_obs(st, 1))
+    return "(%s, %s)" % (r_opx(st), r_obs(st))
 
 
 def r_cfg(cfg):
@@ -977,6 +1059,12 @@ def features(case, obs):
             fs.add("fault-" + pr["op"])
             if st.get("moves"):
                 fs.add("fault-fwd+defrag")
+        if pr["op"] == "fwd" and st.get("sc"):
+            fs.add("setcausal")
+            if any(ex for ex in pr["sc"]):
+                fs.add("setcausal-except")
+            if any(a and not b for a, b in zip(pr["sc"], pr["sc"][1:])):
+                fs.add("setcausal-reset-in-pass")
         if pr["op"] == "fwd":
             if st.get("err") == "full":
                 fs.add("full")
@@ -1221,7 +1309,7 @@ MANIFEST = {
     "engine": "coq-model+go-differential",
     "level_claimed": {
         "category": "proof",
-        "text": "Coq theorems (26, closed under the global context) about an executable model of kvcache/causal.go in which the cell metadata and "
+        "text": "Coq theorems (27, closed under the global context) about an executable model of kvcache/causal.go in which the cell metadata and "
                 "the physical K/V rows per location are separate: for EVERY history of operations (forward batches mixing sequences, CopyPrefix, "
                 "Remove of prefixes/middles/suffixes with shift and the prescribed clean-up on failure, CanResume), every capacity, padding and window, the "
                 "cache state refines a multiset specification (C06_refines, by induction over the operation list; the defragmentation loop with its "
@@ -1242,6 +1330,6 @@ MANIFEST = {
                   "code with fixes/C06-defrag-merge.patch, fixes/C06-canresume-window.patch and fixes/C06-encoder-shift.patch (the defects of the code as found are theorems about fx=false). "
                   "Hypotheses: non-empty batches, positions in [0,MaxInt32), Remove with begin<=end, failing Remove followed by Remove(seq,0,MaxInt32). Partial: "
                   "the WrapperCache(EncoderCache, Causal) pair has no theorem of its own (its components have); CopyPrefix is outside the sliding-window "
-                  "protocol theorem; SetCausal is not modelled (reserve=true is modelled and tied, without theorem). See notes/C06.md.",
+                  "protocol theorem; reserve=true is modelled and tied without theorem; SetCausal is modelled (C06_set_causal_exact). See notes/C06.md.",
     "technique": "Coq proof (invariants + refinement by induction over the operation list) + model/implementation differential check after every operation",
 }
